@@ -51,6 +51,12 @@ impl<Ctx> Bundle<Ctx> for ColourEncoding {
                     Primaries::parse(bitstream, ())?
                 };
                 let tf = TransferFunction::parse(bitstream, ())?;
+                if tf == TransferFunction::Unknown {
+                    tracing::error!("Unknown transfer function without embedded ICC profile");
+                    return Err(Error::ValidationFailed(
+                        "unknown transfer function without embedded ICC profile",
+                    ));
+                }
                 let rendering_intent = bitstream.read_enum::<RenderingIntent>()?;
                 Self::Enum(EnumColourEncoding {
                     colour_space,
